@@ -88,8 +88,10 @@ def _model_consts_deep(tier):
     extra offset of the thorough tier) on top of chains of up to 5 blocks."""
     quick = tier == "quick"
     return {"D": 2, "S": 3, "W": 3, "MaxD": 1, "Cd": [1], "Kinds": ["F", "U", "S", "H", "L"], "Pairs": "none",
-            "BurySizes": [], "Rev": bool(lc.MON_SWITCHES["backwardInReverse"]), "Crash": False,
-            "MaxH": 10 if quick else 12, "DX": 4, "Around": [0, 1] if quick else [-1, 0, 1, 2]}
+            # (a TLC configuration file has no negative literals: the thorough tier's offset -1 is given as the
+            # explicit bury size DX - 2 instead; for D = 2 it would be the empty bury)
+            "BurySizes": [] if quick else [2], "Rev": bool(lc.MON_SWITCHES["backwardInReverse"]), "Crash": False,
+            "MaxH": 10 if quick else 12, "DX": 4, "Around": [0, 1] if quick else [0, 1, 2]}
 
 
 TEXT = {"C15c": "a channel appeared with the id (or a lower id) of a channel the signer had forgotten after an "
